@@ -24,6 +24,7 @@ func init() {
 	operations["x.padsize"] = opXPadSize
 	operations["x.seq"] = opXSeq
 	operations["x.scan"] = opXScan
+	operations["x.global"] = opXGlobal
 	operations["x.find"] = opXFind
 	generators["C19"] = genC19
 }
@@ -162,6 +163,18 @@ func opXPadSize(f []string) string {
 }
 
 // x.seq <style> <hex text> <qf> <qi> ...
+// the sequences the C++ driver constructs during static initialisation
+var xGlobalTexts = []string{"/proj/shot/beauty.1-10#.exr", "/proj/shot/beauty.0101.exr", "rel/v2_take.5-9@@.tif"}
+
+// x.global <k> <qf> <qi>
+func opXGlobal(f []string) string {
+	k := atoi(f[1])
+	if k < 0 || k >= len(xGlobalTexts) {
+		return "valid=0"
+	}
+	return opXSeq([]string{"x.seq", "4", hx(xGlobalTexts[k]), f[2], f[3]})
+}
+
 func opXSeq(f []string) string {
 	st := styleOf(f[1])
 	txt := unhx(f[2])
@@ -315,6 +328,9 @@ func genC19(r *Rand, n int, thorough bool, emit func(string)) {
 				emit(to + s[len(from):])
 			}
 		}
+	}
+	for k := 0; k < 3; k++ {
+		emit(fmt.Sprintf("x.global %d 0,1,-1,7,101,123,100000,-99999 -1,0,1,4,9,10", k))
 	}
 	per := n / 8
 	// x.fs also normalises and inverts, which walk every value between the smallest and the
